@@ -94,3 +94,17 @@ contract('parso.tree.BaseNode._get_code_for_children',
          joins={0: dict(acc='gslice(off(_seq[0]), end(_seq[_i - 1]))', inv=['off(_seq[0]) <= end(_seq[_i - 1])']),
                 1: dict(acc='gslice(off(_seq[0]), end(_seq[_i - 1]))', inv=['off(_seq[0]) <= end(_seq[_i - 1])'])},
          **CODE)
+
+# Param.get_code: like every node with the comma, and without it exactly the span up to the child before a trailing ','
+# (`child == ","` is the code's own test: a leaf of a string-comparing class whose value is the comma)
+LASTC = 'self.children[len(self.children) - 1]'
+contract('parso.python.tree.Param.get_code', params={'self': 'ref:Param', 'include_prefix': 'bool', 'include_comma': 'bool'},
+         returns='str',
+         requires=['self is not None', 'not is_leaf(self)',
+                   # a parameter is never just a comma
+                   'implies(%s == ",", len(self.children) >= 2)' % LASTC],
+         ensures=['implies(include_comma, %s)' % SPAN,
+                  'implies(not include_comma and not (%s == ","), %s)' % (LASTC, SPAN),
+                  'implies(not include_comma and %s == ",", result == gslice(ite(include_prefix, off(self), voff(self)), '
+                  'end(self.children[len(self.children) - 2])))' % LASTC],
+         call_keys={'parso.tree.BaseNode.get_code': 'parso.tree.BaseNode.get_code'}, **CODE)
